@@ -226,6 +226,19 @@ class Exec:
         self.str_lits = engine.str_lits
         self.typed_refs = {}          # z3 ast id -> element type descriptor
         self.in_loop_iteration = False
+        self.iter_descs = {}
+        self.known_cls = {}           # z3 ast id of ref -> (ref, class name, exact)
+        self.protected_dicts = []
+        self.array_origin = {}
+        self.unknown_vals = []
+        self.deepcopies = []
+        self.picks = []
+        self.perms = []
+        self.dict_views = []
+        self.global_objs = {}
+        self.global_refs = {}
+        self.yield_hook = None
+        self.loop_havocs = []
 
     # -- fresh symbols --------------------------------------------------------
     def fresh_name(self, stem):
@@ -392,6 +405,7 @@ class Exec:
     def known(self, v):
         """well-formedness of a value obtained from the pre-state/heap/callee"""
         self.assume(L.refof(v) < self.cur_next())
+        self.assume(z3.Implies(L.is_Str(v), L.slen(Val.s(v)) >= 0))
         return v
 
     # -- events ---------------------------------------------------------------
@@ -416,6 +430,7 @@ class Exec:
         if elts_array is None:
             elts_array = z3.Const(self.fresh_name('elts'), z3.ArraySort(I, Val))
         self.heap.set('LELT', z3.Store(self.heap.arr('LELT'), r, elts_array))
+        self.assume(L.node_owned(r) == z3.BoolVal(bool(getattr(self.task, 'builds_trees', False))))
         self.event('alloc', kind, r)
         return r
 
@@ -479,6 +494,10 @@ class Exec:
             for r in self.protected:
                 self.assume(self.heap.llen(r) == old.llen(r))
                 self.assume(self.heap.lelts(r) == old.lelts(r))
+            for r in self.protected_dicts:
+                self.assume(self.heap.dlen(r) == old.dlen(r))
+                for a in ('DHAS', 'DVAL', 'DKEY'):
+                    self.assume(z3.Select(self.heap.arr(a), r) == z3.Select(old.arr(a), r))
         return old
 
     def protect(self, ref):
@@ -486,6 +505,61 @@ class Exec:
             if r.eq(ref):
                 return
         self.protected.append(ref)
+
+    def unprotect(self, ref):
+        self.protected = [r for r in self.protected if not r.eq(ref)]
+
+    def protect_dict(self, ref):
+        self.protected_dicts.append(ref)
+
+    def unprotect_dict(self, ref):
+        self.protected_dicts = [r for r in self.protected_dicts if not r.eq(ref)]
+
+    # -- python-side knowledge ---------------------------------------------------
+    def note_class(self, ref, cls, exact=False):
+        ref = L.simp(ref)
+        old = self.known_cls.get(ref.get_id())
+        if old is not None and old[2] and not exact:
+            return
+        if old is not None and not exact and old[1] != cls:
+            # keep the more specific one
+            if cls in self.src.classes and old[1] in self.src.classes and old[1] in self.src.subclasses(cls):
+                return
+        self.known_cls[ref.get_id()] = (ref, cls, exact)
+
+    def class_of(self, v):
+        """class name known (python side) for an object value, or None"""
+        if not isinstance(v, z3.ExprRef):
+            return None
+        v = L.simp(v)
+        if v.sort() == Val:
+            if z3.is_app(v) and v.decl().name() == 'ObjV':
+                ref = v.arg(0)
+            else:
+                ref = L.simp(Val.oref(v))
+        else:
+            ref = v
+        k = self.known_cls.get(ref.get_id())
+        return k[1] if k else None
+
+    def assume_elem(self, v):
+        """global element invariant: values held in containers / scopes are language values"""
+        for fam in self.families:
+            fam.assume_value(self, v)
+
+    assume_scope_value = assume_elem
+
+    def loop_var_havoced(self, name, old, new):
+        self.loop_havocs.append((name, old, new))
+
+    def note_array_elems(self, arr, origin):
+        self.array_origin[arr.get_id()] = (arr, origin)
+
+    def use_assumption(self, text):
+        self.assumptions_used.add(text)
+
+    def mark_unknown(self, v):
+        self.unknown_vals.append(v)
 
     # -- strings ---------------------------------------------------------------
     def str_lit(self, s):
@@ -513,10 +587,10 @@ class Exec:
         return None
 
     # -- truthiness / identity / equality ---------------------------------------
-    def truthy(self, v):
+    def truthy(self, v, heap=None):
         if isinstance(v, (St, Closure, BoundMethod)):
             return z3.BoolVal(True)
-        h = self.heap
+        h = heap or self.heap
         return z3.If(L.is_Bool(v), Val.b(v),
                z3.If(L.is_None(v), z3.BoolVal(False),
                z3.If(L.is_Int(v), Val.i(v) != 0,
